@@ -532,6 +532,24 @@ impl C07 {
                             );
                         }
                         out.faults[F_NEVER] += 1;
+                        // a diff that never looks at its deadline cannot
+                        // notice one that has run out before the start: then
+                        // ALL its work is work after expiry
+                        // (not under the colliding hashers: there the comparisons are
+                        // made by the hash maps, quadratically, by construction)
+                        if kmax == 0 && case.prompt && seq.index != IndexKind::Distinct && !matches!(seq.hasher.0, 1 | 2) {
+                            let bound = PROMPT_C * (seq.n() + seq.m() + 1) as u64;
+                            if run.total_cmps > bound {
+                                return fail(
+                                    "c07.prompt",
+                                    format!(
+                                        "k=0: the deadline is never checked, so one that expired before the start goes unnoticed for {} comparisons, bound {} (N={}, M={})",
+                                        run.total_cmps, bound, seq.n(), seq.m()
+                                    ),
+                                );
+                            }
+                            out.count("diffs_that_never_check_their_deadline", 1);
+                        }
                     } else {
                         if run.first_expired != Some(k) {
                             return fail(
